@@ -47,6 +47,8 @@ const NANOSECONDS_PER_SECOND: i32 = 1_000_000_000;
 
 #[cfg(test)]
 mod tests;
+#[cfg(slawlor_ractor_verif)]
+pub mod verif_gate;
 
 #[derive(Debug)]
 enum AuthenticationState {
